@@ -6,6 +6,10 @@ import ZChain.Model.Sig
 `cnew <c>` | `csetpk <c> <key>` | `csetscheme <c> <key>` | `cdecode <c> <key>` | `cstatus <c>` | `cverify <c> <sigidx> <m>` —
 ONE client object whose key is changed (`<key>` a BLS key `k…`/`n…` or an ed25519 key `e…`); `kdirect <key> <sigidx> <m>` — the
 library's own verification of a signature register over the message bytes;
+`idcheck <entry> <key> <variant> [<key'>]` — the pair (public key of `<key>`, the id of `<key'>` (default `<key>`) in the
+spelling `<variant>`, see `Sig.spelling`) through the entry point `<entry>` (`vpk` VerifyPublicKeyClientID, `txn`
+Transaction.ComputeClientID, `txnprops` Transaction.ComputeProperties, `client` Client.Validate, `vticket`
+storagesc ValidationTicket.Validate);
 `ekey <name> <seed>` | `esign <name> <m>` | `etamper <idx>` | `everify <name> <idx> <m>` | `eclient <name>` — ed25519
 (the ideal scheme of `Model/Sig`; public keys `P<n>`, signatures `E<n>`). -/
 namespace ZChain.Drv.C47
@@ -55,8 +59,36 @@ def showClient (s : St) (c : Option (Client (Sum Fr Nat) (Sum Fr Nat))) : St × 
 def setClient (s : St) (n : String) (c : Option (Client (Sum Fr Nat) (Sum Fr Nat))) : St :=
   { s with clients := (s.clients.filter (·.1 != n)) ++ [(n, c)] }
 
+/-- a stand-in for `encryption.Hash(public key bytes)` as a string: 64 lower-case hex digits, injective on the model's
+keys, beginning with a letter (a real hash has 64 hex digits; one without any letter has probability (10/16)^64). -/
+def hexPad : Nat → Nat → List Char
+  | 0, _ => []
+  | k + 1, n => hexPad k (n / 16) ++ [let d := n % 16; if d < 10 then Char.ofNat (48 + d) else Char.ofNat (87 + d)]
+
+def scramble (n : Nat) : Nat :=
+  -- multiplication by an odd constant is a bijection modulo 2^252: the digits look like a hash's (letters everywhere)
+  ((n % 16 ^ 63) * 0x9e3779b97f4a7c15f39cc0605cedc8341082276bf3a27251f86c6a11d0c18e95 + 0x3c6ef372fe94f82b) % 16 ^ 63
+
+def standHash (pk : Sum Fr Nat) : String :=
+  match pk with
+  | Sum.inl x => String.ofList (Char.ofNat (97 + (x.v / 16 ^ 63) % 4) :: hexPad 63 (scramble x.v))
+  | Sum.inr n => String.ofList ('e' :: hexPad 63 (scramble n))
+
+def entries : List String := ["vpk", "txn", "txnprops", "client", "vticket"]
+
+def idcheck (s : St) (entry k v k' : String) : St × String :=
+  match anyKey? s k, anyKey? s k' with
+  | some pk, some pk' =>
+    if !entries.contains entry then (s, "bad-op") else
+    match spelling v (standHash pk') with
+    | some id => (s, showBool (idOk standHash pk id))
+    | none => (s, "bad-op")
+  | _, _ => (s, "bad-op")
+
 def step (s : St) (ws : List String) : St × String :=
   match ws with
+  | ["idcheck", e, k, v] => idcheck s e k v k
+  | ["idcheck", e, k, v, k'] => idcheck s e k v k'
   | ["cnew", c] => (setClient s c none, "ok")
   | [op, c, k] =>
     if op == "csetpk" || op == "csetscheme" || op == "cdecode" then
